@@ -57,6 +57,7 @@ func main() {
 	r.Guard("structure sweep", func() { structureSweep(r) })
 	r.Guard("killed starts", func() { killedStarts(r) })
 	r.Guard("identifier lengths", func() { idLengths(r) })
+	r.Guard("simultaneous pairing changes", func() { simultaneous(r) })
 	t3 := time.Now()
 
 	// ---- part 1
